@@ -20,6 +20,7 @@ class Ref:
 class Seq:
     items: list
     suppress: bool = False
+    paren: bool = False      # print redundant parentheses around the sequence: ('a'-) is the same expression as 'a'-
 @dataclass
 class Choice:
     alts: list
@@ -140,6 +141,8 @@ def pr(e, top=False):
         if isinstance(e, (Seq, Choice)):
             s = '(' + s + ')'
         s += '-'
+    if isinstance(e, Seq) and e.paren:
+        s = '(' + s + ')'
     return s
 
 def pr_(e):
@@ -805,3 +808,19 @@ def dump_tx(v, seen=None):
     if isinstance(v, list):
         return ('list', tuple(dump_tx(x) for x in v))
     return (type(v).__name__, v)
+
+
+def dump_spans(v):
+    """(class, start, end) of every object of a reference model, in traversal order"""
+    out = []
+
+    def walk(x):
+        if isinstance(x, RObj):
+            out.append((x.cls, x.start, x.end))
+            for a in x.attrs.values():
+                walk(a)
+        elif isinstance(x, list):
+            for y in x:
+                walk(y)
+    walk(v)
+    return out
